@@ -124,8 +124,22 @@ def run(chk):
 
 
 def run_config(chk, facts):
-    twc = chk.anchor("C13-a", "skrifa::color::traversal::traverse_with_callbacks",
-                     facts.body("skrifa::color::traversal::traverse_with_callbacks"))
+    entry = chk.anchor("C13-a", "skrifa::color::traversal::traverse_with_callbacks",
+                       facts.body("skrifa::color::traversal::traverse_with_callbacks"))
+    # The recursive traversal is the entry itself or -- since the fix for F31 -- the function a thin wrapper forwards
+    # to: a wrapper has no self call and exactly one call into the module, to which it passes its own parameters, in
+    # order, as the leading arguments (so parameter positions -- painter, decycler, depth -- carry over).
+    twc = entry
+    if not any(t.callee == entry.path for _, t in entry.calls()):
+        cs = [(bb, t) for bb, t in entry.calls() if t.callee.startswith("skrifa::color::traversal::")]
+        fw = None
+        if len(cs) == 1 and len(cs[0][1].args) >= entry.argc:
+            t = cs[0][1]
+            if all(entry.root_local(t.args[i]) == i + 1 for i in range(entry.argc) if op_place(t.args[i]) is not None) \
+                    and all(op_place(t.args[i]) is not None for i in range(entry.argc)):
+                fw = facts.body(t.callee)
+        twc = chk.anchor("C13-a", "the recursive function traverse_with_callbacks forwards to", fw)
+    entry_paths = {entry.path, twc.path}
     paint = chk.anchor("C13-a", "ColorGlyph::paint", facts.body("skrifa::color::ColorGlyph::<'a>::paint"))
     v0 = chk.anchor("C13-a", "traverse_v0_range", facts.body("skrifa::color::traversal::traverse_v0_range"))
 
@@ -133,9 +147,9 @@ def run_config(chk, facts):
     chk.rule("C13-a", "T-STATE: stack automaton over push_*/pop_* calls on the caller's painter; every exit not "
                       "classified Err has an empty stack; pops are LIFO-matched; nested traversals balanced on Ok "
                       "(inductive hypothesis), poisoned on Err")
-    balanced = [twc.path, v0.path]
+    balanced = sorted(entry_paths) + [v0.path]
     total_events = 0
-    for b in (twc, paint, v0):
+    for b in ([twc, paint, v0] if entry is twc else [twc, entry, paint, v0]):
         ps = painter_locals(b)
         chk.anchor("C13-a", f"painter parameter of {b.path}", ps)
         stats, ex = balance_check(chk, "C13-a", b, balanced, ps)
@@ -185,12 +199,105 @@ def run_config(chk, facts):
         chk.ob("C13-b", "traverse_with_callbacks has an integer depth parameter", False, key=f"{twc.path}|depth-param",
                file=twc.file, line=twc.lo, fn=twc.path, detail="no integer parameter named *depth*: the recursion has no depth counter")
     for bb, t in paint.calls():
-        if t.callee == twc.path and depth_ix is not None and depth_ix < len(t.args):
+        if t.callee in entry_paths and depth_ix is not None and depth_ix < len(t.args):
             e = strip_casts(expr_of(paint, t.args[depth_ix]))
             chk.ob("C13-b", f"ColorGlyph::paint passes initial depth {show(paint, e)}",
                    e[0] == "const" and e[2] is not None and e[2] <= 8,
                    key=f"{paint.path}|root-depth", file=paint.file, line=t.line, fn=paint.path,
                    detail=f"initial recursion depth is `{show(paint, e)}`, expected a small constant")
+
+    # ---- C13-e no node is descended into twice (except by a cut-off probe) ----------------------
+    chk.rule("C13-e", "T-ONCE: a path through the recursive traversal descends into the same child paint at most once, "
+                      "unless the first descent is a probe: it passes the constant `true` in a bool parameter P, every other "
+                      "recursive call passes P through unchanged, and both descents are dominated by the false edge of a "
+                      "test of P whose true edge reaches no recursive call (so probes do not nest: 2^depth otherwise, F31)")
+    RESOLVE = "skrifa::color::instance::resolve_paint"
+    rps = [(bb, t) for bb, t in twc.calls() if t.callee == RESOLVE]
+    chk.floor("C13-e", "resolve_paint calls in the traversal", len(rps), 6)
+
+    paint_ix = param_index(twc, lambda n, ty: "ResolvedPaint" in ty)
+    chk.anchor("C13-e", "the paint parameter of the traversal", paint_ix is not None and [paint_ix])
+
+    def child_key(t):
+        # the child this call descends into, as the symbolic expression of the paint argument (locals with a single
+        # definition are expanded, so `let child = resolve_paint(..)?; f(&child)` and `f(&resolve_paint(..)?)` agree)
+        if paint_ix is None or paint_ix >= len(t.args):
+            return None
+        return show(twc, strip_casts(expr_of(twc, t.args[paint_ix])))
+    keys = {bb: child_key(t) for bb, t in self_calls}
+    bool_params = [i for i in range(1, twc.argc + 1) if twc.locals[i][0] == "bool"]
+
+    def arg_kind(t, pl):
+        # 'true' | 'false' | 'param' | 'other' for the argument passed in parameter position pl (1-based local)
+        if pl - 1 >= len(t.args):
+            return "other"
+        e = strip_casts(expr_of(twc, t.args[pl - 1]))
+        if e[0] == "const":
+            return "true" if e[2] == 1 else "false" if e[2] == 0 else "other"
+        if e[0] in ("param", "local") and e[1] == pl:
+            return "param"
+        return "other"
+    n_pairs = 0
+    for i, (b1, t1) in enumerate(self_calls):
+        reach = twc.reachable_from(twc.blocks[b1].term.targets[0]) if twc.blocks[b1].term.targets else set()
+        for b2, t2 in self_calls:
+            if b2 == b1 or b2 not in reach or keys[b1] is None or keys[b1] != keys[b2]:
+                continue
+            n_pairs += 1
+            ok, why = False, "no bool parameter marks the first descent as a probe"
+            for pl in bool_params:
+                if arg_kind(t1, pl) != "true":
+                    continue
+                others = [(bb, t, arg_kind(t, pl)) for bb, t in self_calls if bb != b1]
+                bad = [t.line for bb, t, k in others if k != "param"]
+                if bad:
+                    why = f"recursive call(s) at line(s) {bad} do not pass `{twc.local_name(pl)}` through unchanged (a probe could nest again below them)"
+                    continue
+                cut = False
+                for sb, blk in enumerate(twc.blocks):
+                    tm = blk.term
+                    if blk.cleanup or tm.kind != "switch" or op_place(tm.d[1]) is None:
+                        continue
+                    if twc.root_local(tm.d[1]) != pl and strip_casts(expr_of(twc, tm.d[1])) not in (("local", pl), ("param", pl)):
+                        continue
+                    zero = [bb for v, bb in tm.d[2] if str(v) == "0"]
+                    t_true = tm.d[3] if zero else None
+                    if not zero or t_true is None:
+                        continue
+                    f_edge = zero[0]
+                    sc_blocks = {bb for bb, _ in self_calls}
+                    if twc.dominates(f_edge, b1) and twc.dominates(f_edge, b2) and not (twc.reachable_from(t_true) & sc_blocks):
+                        cut = True
+                if cut:
+                    ok, why = True, f"first descent is a probe (`{twc.local_name(pl)}` = true), cut off at nested occurrences"
+                else:
+                    why = (f"the two descents are not dominated by the false edge of a test of `{twc.local_name(pl)}` whose true edge "
+                           f"makes no recursive call")
+            chk.ob("C13-e", f"lines {t1.line} and {t2.line} both descend into `{keys[b1]}`: {why}", ok,
+                   key=f"{twc.path}|double-descent|{keys[b1]}", file=twc.file, line=t2.line, fn=twc.path,
+                   detail=f"one visit of this node traverses the child `{keys[b1]}` twice (lines {t1.line} and {t2.line}); nested "
+                          f"occurrences multiply: a chain of n such nodes costs 2^n. {why}")
+    chk.stats["C13-e:double_descent_pairs"] = n_pairs
+    chk.stats["C13-e:recursive_calls"] = len(self_calls)
+
+    # ---- C13-f errors of nested traversals surface -----------------------------------------------
+    chk.rule("C13-f", "T-ERR: the Result of every nested traversal (recursive calls, the wrapper's forward, paint()'s root calls) "
+                      "is propagated with `?` or becomes the function's return value; it is never bound to `_`, dropped, "
+                      "unwrapped or defaulted (a cyclic / too deep / malformed sub-graph must fail the paint, not succeed)")
+    from ..guards import result_fate as _rf
+    n_res = 0
+    nested = set(entry_paths) | {v0.path}
+    for b in ([twc, paint, v0] if entry is twc else [twc, entry, paint, v0]):
+        for bb, t in b.calls():
+            if t.callee in nested:
+                n_res += 1
+                fate = _rf(b, bb)
+                chk.ob("C13-f", f"{b.path.split('::')[-1]} line {t.line}: result of {t.callee.split('::')[-1]} is {sorted(fate)}",
+                       bool(fate) and fate <= {"propagated", "returned"},
+                       key=f"{b.path}|nested-result|{sorted(fate - {'propagated', 'returned'})}", file=b.file, line=t.line, fn=b.path,
+                       detail=f"the Result of a nested traversal is {sorted(fate)}: an error below this node (cycle, depth limit, "
+                              f"malformed paint) can be lost and the paint reported as successful")
+    chk.floor("C13-f", "nested traversal calls", n_res, 9)
 
     # ---- C13-c cycle guard ------------------------------------------------------------------
     chk.rule("C13-c", "T-GUARD: recursive calls that follow a ColrLayers / ColrGlyph edge (and the root call) pass a "
@@ -198,7 +305,7 @@ def run_config(chk, facts):
                       "before writing; DecyclerGuard::drop decrements")
     ENTER = "skrifa::decycler::Decycler::<T, D>::enter"
     n_guarded = 0
-    for b, calls in ((twc, self_calls), (paint, [(bb, t) for bb, t in paint.calls() if t.callee == twc.path])):
+    for b, calls in ((twc, self_calls), (paint, [(bb, t) for bb, t in paint.calls() if t.callee in entry_paths])):
         for bb, t in calls:
             # decycler argument: rooted at a guard local (from enter) or at the parameter
             if decy_ix is None or decy_ix >= len(t.args):
